@@ -336,3 +336,234 @@ func genC05(g *gen) {
 		}
 	}
 }
+
+// viewSteps builds a parent and a view of it; returns steps, parent var, view var.
+func (g *gen) viewSteps(dt string, sh []int, ord string) (steps []string, view int, vshape []int) {
+	steps = []string{fmt.Sprintf("new %s %s %s", dt, ints(sh), ord)}
+	switch g.r.intn(4) {
+	case 0: // slice
+		spec := g.randSliceList(sh)
+		steps = append(steps, "slice $0 "+spec)
+		return steps, 1, sliceShapeGuess(sh, spec)
+	case 1: // lazy transpose (the tensor itself is the "view" of its storage)
+		if len(sh) >= 2 {
+			p := g.randPerm(len(sh))
+			steps = append(steps, fmt.Sprintf("T $0 %s", ints(p)))
+			ns := make([]int, len(sh))
+			for i, a := range p {
+				ns[i] = sh[a]
+			}
+			return steps, 0, ns
+		}
+		return steps, 0, sh
+	case 2: // slice of a transpose
+		cs := sh
+		if len(sh) >= 2 {
+			p := g.randPerm(len(sh))
+			steps = append(steps, fmt.Sprintf("T $0 %s", ints(p)))
+			ns := make([]int, len(sh))
+			for i, a := range p {
+				ns[i] = sh[a]
+			}
+			cs = ns
+		}
+		spec := g.randSliceList(cs)
+		steps = append(steps, "slice $0 "+spec)
+		return steps, 1, sliceShapeGuess(cs, spec)
+	default: // slice of slice
+		spec := g.randSliceList(sh)
+		s1 := sliceShapeGuess(sh, spec)
+		steps = append(steps, "slice $0 "+spec)
+		if s1 == nil {
+			return steps, 1, nil
+		}
+		spec2 := g.randSliceList(s1)
+		steps = append(steps, "slice $1 "+spec2)
+		return steps, 2, sliceShapeGuess(s1, spec2)
+	}
+}
+
+// C04: views alias their source, copies never do, writes stay inside the view.
+func genC04(g *gen) {
+	dims := []int{1, 2, 3, 4}
+	maxRank := 3
+	n := 2500
+	if g.thorough() {
+		maxRank = 4
+		n = 60000
+	}
+	shs := shapes(1, maxRank, dims)
+	for k := 0; k < n; k++ {
+		sh := shs[g.r.intn(len(shs))]
+		if size(sh) > 200 {
+			continue
+		}
+		dt := g.r.pick([]string{"i16", "f64", "u8", "str", "c128", "b", "i64", "f32"})
+		ord := g.r.pick([]string{"C", "C", "Fraw", "Fconv"})
+		steps, v, _ := g.viewSteps(dt, sh, ord)
+		nv := v + 1
+		vs := fmt.Sprintf("$%d", v)
+		switch g.r.intn(9) {
+		case 0:
+			steps = append(steps, "memset "+vs)
+		case 1:
+			steps = append(steps, "zero "+vs)
+		case 2: // copy into the view from an equally shaped fresh tensor
+			steps = append(steps, "clone "+vs, fmt.Sprintf("memset $%d", nv), fmt.Sprintf("copy %s $%d", vs, nv))
+			nv++
+		case 3: // write through the parent, read through the view
+			c := make([]int, len(sh))
+			for i := range c {
+				c[i] = g.r.intn(sh[i])
+			}
+			steps = append(steps, fmt.Sprintf("setat $0 %s", ints(c)))
+		case 4: // clone, then write to the clone and to the source
+			steps = append(steps, "clone "+vs, fmt.Sprintf("memset $%d", nv), "dump "+vs, "memset "+vs, fmt.Sprintf("dump $%d", nv))
+			nv++
+		case 5:
+			steps = append(steps, "mat "+vs, fmt.Sprintf("dump $%d", nv), fmt.Sprintf("zero $%d", nv))
+			nv++
+		case 6:
+			steps = append(steps, fmt.Sprintf("safeT %s -", vs), fmt.Sprintf("dump $%d", nv), fmt.Sprintf("memset $%d", nv))
+			nv++
+		case 7: // CopyTo between plain tensors and (refused) views
+			steps = append(steps, "clone "+vs, fmt.Sprintf("zero $%d", nv), fmt.Sprintf("copyto %s $%d", vs, nv), fmt.Sprintf("dump $%d", nv))
+			nv++
+		case 8:
+			steps = append(steps, fmt.Sprintf("new %s %s C", dt, ints(sh)), fmt.Sprintf("copy $%d $0", nv), fmt.Sprintf("dump $%d", nv))
+			nv++
+		}
+		steps = append(steps, "dump $0")
+		if v != 0 {
+			steps = append(steps, "dump "+vs)
+		}
+		if v == 2 {
+			steps = append(steps, "dump $1")
+		}
+		g.emit(steps...)
+	}
+}
+
+func factorisations(n, maxRank int) [][]int {
+	var out [][]int
+	var rec func(rem int, cur []int)
+	rec = func(rem int, cur []int) {
+		if len(cur) > 0 && rem == 1 {
+			out = append(out, append([]int{}, cur...))
+		}
+		if len(cur) == maxRank {
+			return
+		}
+		for d := 1; d <= rem; d++ {
+			if rem%d == 0 && !(d == 1 && len(cur) > 0 && rem == 1) {
+				if d == 1 && rem != 1 && len(cur) >= maxRank-1 {
+					continue
+				}
+				rec(rem/d, append(cur, d))
+			}
+		}
+	}
+	rec(n, nil)
+	return out
+}
+
+// C13: shape algebra agrees with execution; reshape; metadata invariant.
+func genC13(g *gen) {
+	maxd := 4
+	n := 3000
+	if g.thorough() {
+		maxd = 5
+		n = 80000
+	}
+	ds := []int{}
+	for d := 1; d <= maxd; d++ {
+		ds = append(ds, d)
+	}
+	shs := shapes(0, 4, ds)
+	// calculators vs execution on the same arguments (valid and invalid)
+	for k := 0; k < n; k++ {
+		sh := shs[g.r.intn(len(shs))]
+		if size(sh) > 300 {
+			continue
+		}
+		ord := g.r.pick([]string{"C", "C", "Fraw"})
+		steps := []string{fmt.Sprintf("new i32 %s %s", ints(sh), ord)}
+		var spec string
+		if g.r.chance(1, 4) {
+			parts := make([]string, len(sh))
+			for i := range parts {
+				fs := fullAxisSpace(sh[i])
+				parts[i] = fs[g.r.intn(len(fs))]
+			}
+			spec = strings.Join(parts, ",")
+			if len(parts) == 0 {
+				spec = "-"
+			}
+		} else {
+			spec = g.randSliceList(sh)
+		}
+		steps = append(steps, "calcS $0 "+spec, "slice $0 "+spec, "dump $1")
+		var p []int
+		if g.r.chance(1, 6) {
+			p = make([]int, len(sh))
+			for i := range p {
+				p[i] = g.r.intn(len(sh)+1) - 0
+			}
+		} else {
+			p = g.randPerm(len(sh))
+		}
+		steps = append(steps, fmt.Sprintf("calcT $0 %s", ints(p)), fmt.Sprintf("T $0 %s", ints(p)), "dump $0")
+		g.emit(steps...)
+	}
+	// reshape to every factorisation of the size (and wrong sizes), after slicing/transposing/cloning
+	for k := 0; k < n; k++ {
+		sh := shs[g.r.intn(len(shs))]
+		if size(sh) > 64 || len(sh) == 0 {
+			continue
+		}
+		ord := g.r.pick([]string{"C", "C", "Fraw", "Fconv"})
+		steps := []string{fmt.Sprintf("new i16 %s %s", ints(sh), ord)}
+		v := 0
+		cur := sh
+		switch g.r.intn(6) {
+		case 0:
+		case 1:
+			if len(sh) >= 2 {
+				p := g.randPerm(len(sh))
+				steps = append(steps, fmt.Sprintf("T $0 %s", ints(p)))
+			}
+		case 2:
+			spec := g.randSliceList(sh)
+			steps = append(steps, "slice $0 "+spec)
+			v = 1
+			cur = sliceShapeGuess(sh, spec)
+		case 3:
+			spec := g.randSliceList(sh)
+			steps = append(steps, "slice $0 "+spec, "clone $1")
+			v = 2
+			cur = sliceShapeGuess(sh, spec)
+		case 4:
+			spec := g.randSliceList(sh)
+			steps = append(steps, "slice $0 "+spec, "mat $1")
+			v = 2
+			cur = sliceShapeGuess(sh, spec)
+		case 5:
+			steps = append(steps, "clone $0")
+			v = 1
+		}
+		if cur == nil {
+			cur = []int{1}
+		}
+		tot := size(cur)
+		fs := factorisations(tot, 4)
+		var target []int
+		if g.r.chance(1, 6) || len(fs) == 0 {
+			target = []int{tot + 1}
+		} else {
+			target = fs[g.r.intn(len(fs))]
+		}
+		vs := fmt.Sprintf("$%d", v)
+		steps = append(steps, "dump "+vs, fmt.Sprintf("reshape %s %s", vs, ints(target)), "dump "+vs, "dump $0")
+		g.emit(steps...)
+	}
+}
